@@ -537,9 +537,12 @@ fn main() {
         }));
         // ---- supersession: an instance is replaced before it expires (drain polling, 50 ms)
         let durs: [u64; 11] = [1, 2, 3, 5, 9, 10, 11, 20, 30, 31, 60];
-        gens.push(Gen::new("supersession", durs.len() * 6, move |ctx, i| {
+        gens.push(Gen::new("supersession", durs.len() * 12, move |ctx, i| {
             let dur = durs[i % durs.len()];
-            let variant = i / durs.len();
+            let variant = (i / durs.len()) % 6;
+            // second half: the static-carousel recipe - add, set_complete(), publish, then poll for ever; a complete FDT
+            // still expires and must be renewed like any other
+            let complete_first = i / durs.len() >= 6;
             let mut rng = Rng::keyed(ctx.seed, "C10s", 0, i as u64);
             let mut spec = SenderSpec::new(OtiSpec::new(Fec::NoCode, 1400, 8, 0));
             spec.fdt_duration_s = dur;
@@ -549,7 +552,7 @@ fn main() {
             let offset_ms = [0u64, 250, 500, 900, 999, 1][variant];
             let mut o = ObjSpec::new(rng.bytes(3000), "file:///s/keepalive.bin");
             o.carousel = Some(CarouselSpec::DelayMs(300));
-            let script = vec![(When::Start, Op::Add(0)), (When::Start, Op::Publish)];
+            let script = if complete_first { vec![(When::Start, Op::Add(0)), (When::Start, Op::SetComplete), (When::Start, Op::Publish)] } else { vec![(When::Start, Op::Add(0)), (When::Start, Op::Publish)] };
             let n = ((dur * 3 + 4) * 1000 / 50) as usize;
             let opts = ScriptOpts { instants: (0..n as u64).map(|k| offset_ms + k * 50).collect(), drain: true, max_packets: 400_000, max_per_instant: 20_000, stop_when_empty: false, us: false };
             let mut cr = CaseResult::default();
@@ -582,7 +585,7 @@ fn main() {
                                 .with("duration_class", if dur <= 10 { "le10" } else if dur <= 30 { "le30" } else { "gt30" })
                                 .with("late_lt_1s", late.as_millis() < 1000)
                                 .with("publish_offset_ge_900ms", offset_ms >= 900)
-                                .with("full_fdt", spec.full_fdt)
+                                .with("full_fdt", spec.full_fdt).with("set_complete", complete_first)
                                 .witness(json!({"sender": spec.json(), "offset_ms": offset_ms, "instances": insts.iter().map(|x| json!({"id": x.id, "t_first_us": util::since_t0_us(x.t_first) as i64})).collect::<Vec<_>>()})));
                             break;
                         }
@@ -606,7 +609,7 @@ fn main() {
                     }
                     cr.count("supersession_pairs", pairs);
                     if pairs > 0 {
-                        cr.shape = Some(util::fnv(&format!("sup|{}|{}", dur, variant)));
+                        cr.shape = Some(util::fnv(&format!("sup|{}|{}|{}", dur, variant, complete_first)));
                     }
                     cr.sample = Some(json!({"fdt_duration_s": dur, "offset_ms": offset_ms, "instances": insts.len(), "pairs_judged": pairs}));
                 }
